@@ -102,3 +102,46 @@ Qed.
 
 Theorem equivb_sound input output : equivb input output = true -> equiv input output.
 Proof. unfold equivb, equiv. apply tree_eqb_eq. Qed.
+
+(* ... and complete: whenever the normal forms are equal the checker says so — the predicate evaluated on the real
+   input/output never rejects a round trip that satisfies the property *)
+Lemma value_eqb_refl : forall a, value_eqb a a = true.
+Proof.
+  fix IH 1. intros a. destruct a as [|s|z|d|bo|by_|l|m]; cbn [value_eqb].
+  - reflexivity.
+  - apply bytes_eqb_eq. reflexivity.
+  - apply Z.eqb_refl.
+  - apply N.eqb_refl.
+  - destruct bo; reflexivity.
+  - apply bytes_eqb_eq. reflexivity.
+  - induction l as [|u t1 IHl]; [reflexivity|]. rewrite (IH u), IHl. reflexivity.
+  - induction m as [|[k u] t1 IHl]; [reflexivity|]. rewrite (IH u), IHl.
+    assert (Hk : bytes_eqb k k = true) by (apply bytes_eqb_eq; reflexivity). rewrite Hk. reflexivity.
+Qed.
+
+Lemma tree_eqb_refl : forall a, tree_eqb a a = true.
+Proof.
+  fix IH 1. intros a. destruct a as [z|s|v|d|[x|]|m|l]; cbn [tree_eqb].
+  - apply Z.eqb_refl.
+  - apply bytes_eqb_eq. reflexivity.
+  - apply value_eqb_refl.
+  - apply N.eqb_refl.
+  - apply IH.
+  - reflexivity.
+  - apply (value_eqb_refl (VMap m)).
+  - induction l as [|u t1 IHl]; [reflexivity|]. rewrite (IH u), IHl. reflexivity.
+Qed.
+
+Theorem equivb_complete input output : equiv input output -> equivb input output = true.
+Proof. unfold equivb, equiv. intros ->. apply tree_eqb_refl. Qed.
+
+Theorem equivb_iff input output : equivb input output = true <-> equiv input output.
+Proof. split; [apply equivb_sound|apply equivb_complete]. Qed.
+
+(* the identity round trip is always accepted, and equivalence is an equivalence relation *)
+Lemma equiv_refl x : equiv x x.
+Proof. reflexivity. Qed.
+Lemma equiv_sym x y : equiv x y -> equiv y x.
+Proof. unfold equiv. congruence. Qed.
+Lemma equiv_trans x y z : equiv x y -> equiv y z -> equiv x z.
+Proof. unfold equiv. congruence. Qed.
